@@ -76,6 +76,7 @@ func c03(c *core.Check) {
 	c.Decide(len(cs) == 0, "capture-not-at-offset-0", "grammar/captures", "parser/thrift.peg.go", "every capture is preceded by at least one consumed character on every derivation from Document (pegText's buffer[begin-1] is in range)",
 		fmt.Sprintf("captures in %v can begin at input offset 0: pegText reads buffer[-1] and panics", cs))
 	c03nested(c, g)
+	c03doubleText(c, g)
 	c03intSpellings(c)
 	c03annotationsAppend(c)
 	c03annotations(c)
@@ -878,4 +879,57 @@ func c03annotationsAppend(c *core.Check) {
 	c.Decide(!escaped, "annotation-pair-always-recorded", key, where,
 		"every path through Append appends the value it was given",
 		"Append can return without recording the value it was given: a written annotation pair (for instance a value repeated under the same key) is missing from the AST, so repeated keys do not accumulate every value in order")
+}
+
+// c03doubleText: the capture of a DoubleConstant contains its exponent, an IntConstant, and the grammar lets layout (Skip:
+// blanks and comments) stand in front of and behind an IntConstant's digits. `1e 5` and `1e/*c*/5` are therefore
+// grammatical and their matched text is not a number as it stands. Rule (armed while the grammar has a capture that
+// contains another rule's capture): in the walker, the text handed to strconv.ParseFloat is produced by a function of the
+// parser package (not the raw pegText, nor a strings helper applied to it), and ParseFloat's error is not discarded.
+func c03doubleText(c *core.Check, g *peg.Grammar) {
+	key := "parser.(parser).parseConstValue/ParseFloat"
+	if len(g.NestedCaptures()) == 0 {
+		c.OKTrivial("double-text-layout-free", key, "parser/thrift.peg.go", "no capture of the grammar contains another rule's capture")
+		return
+	}
+	pk := c.Prog.Pkg("parser")
+	info := pk.TypesInfo
+	n := 0
+	for _, f := range pk.Syntax {
+		if !strings.HasSuffix(c.Prog.Fset.File(f.Pos()).Name(), "/parser.go") {
+			continue
+		}
+		ast.Inspect(f, func(m ast.Node) bool {
+			as, ok := m.(*ast.AssignStmt)
+			if !ok || len(as.Rhs) != 1 || len(as.Lhs) != 2 {
+				return true
+			}
+			call, ok := as.Rhs[0].(*ast.CallExpr)
+			if !ok {
+				return true
+			}
+			fn := rules.Callee(info, call)
+			if fn == nil || fn.Pkg() == nil || fn.Pkg().Path() != "strconv" || fn.Name() != "ParseFloat" || len(call.Args) != 2 {
+				return true
+			}
+			n++
+			where := c.Prog.Rel(as.Pos())
+			id, isID := as.Lhs[1].(*ast.Ident)
+			c.Decide(!(isID && id.Name == "_"), "double-text-layout-free", fmt.Sprintf("%s#%d/error", key, n), where,
+				"ParseFloat's error is kept", "the error of ParseFloat is discarded: a matched text that is no number (`1e 5` with its blank, `1e0x10`) silently becomes 0.0")
+			local := false
+			if inner, ok := ast.Unparen(call.Args[0]).(*ast.CallExpr); ok {
+				if ifn := rules.Callee(info, inner); ifn != nil && ifn.Pkg() == pk.Types {
+					if sig, ok := ifn.Type().(*types.Signature); ok && sig.Recv() == nil {
+						local = true
+					}
+				}
+			}
+			c.Decide(local, "double-text-layout-free", fmt.Sprintf("%s#%d/text", key, n), where,
+				"the matched text passes through a parser-package function before the conversion",
+				"the text of the DoubleConstant capture ("+rules.ExprString(call.Args[0])+") goes to ParseFloat as it was matched: the exponent is an IntConstant with layout around its digits, so `const double d = 1e 5` (or `1e/*c*/5`) is grammatical and is not read as 100000")
+			return true
+		})
+	}
+	c.Min("double-text-layout-free", 2)
 }
